@@ -589,7 +589,11 @@ func (c *SpecCtx) selectField(x Val, sel string) Val {
 				cur = Val{T: p, Typ: types.NewPointer(ft)}
 				continue
 			}
-			cur = Val{T: c.vc.load(c.st, p, ft), Typ: ft}
+			fm := ""
+			if isCellType(ft) {
+				fm = enc.memForField(pt.Elem(), fi)
+			}
+			cur = Val{T: c.vc.loadM(c.st, fm, p, ft), Typ: ft}
 			continue
 		}
 		st, ok := t.Underlying().(*types.Struct)
